@@ -240,6 +240,66 @@ func checkC04(p *Prog, l *Ledger) {
 	checkFunctionCall(cs, l)
 	checkCallProtocol(cs, l)
 	checkClosureWiring(cs, l, "C04/S4-closure")
+	checkASTReadOnly(p, l)
+}
+
+// checkASTReadOnly: after parsing, nothing writes into AST nodes — evaluations of the same node
+// (recursion, re-entrant calls, closures created by different executions) cannot interfere through it.
+func checkASTReadOnly(p *Prog, l *Ledger) {
+	rule := "C04/S5-ast-read-only"
+	n := 0
+	for _, fn := range p.ModuleFuncs() {
+		pk := fnPkgName(fn)
+		if pk == "parser" {
+			continue
+		}
+		instrsOf(fn, func(in ssa.Instruction) {
+			var addr ssa.Value
+			switch x := in.(type) {
+			case *ssa.Store:
+				addr = x.Addr
+			case *ssa.MapUpdate:
+				addr = x.Map
+			default:
+				return
+			}
+			// walk to the root object of the written location
+			root := addr
+			var path []string
+			for depth := 0; depth < 8; depth++ {
+				switch y := root.(type) {
+				case *ssa.FieldAddr:
+					tn, f := structKey(y.X.Type(), y.Field)
+					path = append(path, tn+"."+f)
+					root = y.X
+					continue
+				case *ssa.IndexAddr:
+					root = y.X
+					continue
+				case *ssa.UnOp:
+					root = y.X
+					continue
+				}
+				break
+			}
+			for _, seg := range path {
+				if strings.HasPrefix(seg, "ast.") {
+					if al, ok := root.(*ssa.Alloc); ok && !al.Heap {
+						continue
+					}
+					if _, fresh := root.(*ssa.Alloc); fresh && pk == "ast" {
+						continue
+					}
+					n++
+					l.Violate(rule, p.FuncKey(fn)+"#store("+seg+")", p.InstrPos(in), "package "+pk+" writes into an AST node ("+seg+") after parsing: state attached to the syntax tree is shared by every evaluation of that node, so recursive or re-entrant evaluations interfere")
+					return
+				}
+			}
+		})
+	}
+	if n == 0 {
+		l.Discharge(rule, "ast.*", "", "no store into any AST node field outside the parser", true)
+	}
 }
 
 // S2 (first half): the Return clause.
@@ -479,6 +539,12 @@ func checkCallProtocol(cs *clauseSet, l *Ledger) {
 			case "append":
 				if len(ev.Args) != 2 || ev.Args[1] != parts[3]+".val" {
 					return "!the evaluated argument is not what is appended: " + ev.String()
+				}
+				if parts[2] == "nil" && ev.Args[0] != "nil" && !strings.HasPrefix(ev.Args[0], "obj:") {
+					return "!the argument list is accumulated in storage that outlives this evaluation (" + ev.Args[0] + "): a re-entrant evaluation of the same call site overwrites it"
+				}
+				if parts[2] == "acc" && !strings.HasPrefix(ev.Args[0], "append:") {
+					return "!an argument is appended to " + ev.Args[0] + " instead of the list built so far"
 				}
 				return "loop|" + parts[1] + "|acc"
 			}
